@@ -155,11 +155,11 @@ func guardFires(c *Ctx, fd *ast.FuncDecl, p *packages.Package, env map[types.Obj
 }
 
 func checkCropGuards(c *Ctx, r *Report) {
-	r.Rule("S-CROP", "every crop entry (RGBLuminanceSource.Crop, PlanarYUVLuminanceSource.Crop, NewPlanarYUVLuminanceSource) returns an error, before constructing anything, exactly when the rectangle has a negative origin or its absolute extent (the receiver's own left/top offset included) leaves the underlying data: the guards, followed through tail delegation, are folded over a grid of receiver offsets and rectangles", 3)
-	lefts := []int64{-3, -1, 0, 1, 3, 7, 8}
+	r.Rule("S-CROP", "every crop entry (RGBLuminanceSource.Crop, PlanarYUVLuminanceSource.Crop, NewPlanarYUVLuminanceSource) returns an error, before constructing anything, exactly when the rectangle has a negative origin, a negative width or height (which would let an origin beyond the data through the extent test and crash later) or its absolute extent (the receiver's own left/top offset included) leaves the underlying data: the guards, followed through tail delegation, are folded over a grid of receiver offsets and rectangles", 3)
+	lefts := []int64{-3, -1, 0, 1, 3, 7, 8, 20}
 	tops := []int64{-2, -1, 0, 1, 2, 6, 7}
-	widths := []int64{1, 2, 5, 7, 8, 10}
-	heights := []int64{1, 2, 5, 6, 7, 8}
+	widths := []int64{-15, -1, 1, 2, 5, 7, 8, 10}
+	heights := []int64{-6, -1, 1, 2, 5, 6, 7, 8}
 	views := []viewFields{{0, 0, 10, 8}, {2, 1, 10, 8}, {5, 4, 10, 8}}
 	for _, t := range []string{"RGBLuminanceSource.Crop", "PlanarYUVLuminanceSource.Crop"} {
 		key := "gozxing." + t
@@ -189,9 +189,9 @@ func checkCropGuards(c *Ctx, r *Report) {
 								bad = "?" + err
 								break grid
 							}
-							invalid := l < 0 || tp < 0 || v.left+l+w > v.dataWidth || v.top+tp+h > v.dataHeight
+							invalid := l < 0 || tp < 0 || w < 0 || h < 0 || v.left+l+w > v.dataWidth || v.top+tp+h > v.dataHeight
 							if fired != invalid {
-								bad = fmt.Sprintf("view at offset (%d,%d) of %dx%d data, Crop(%d,%d,%d,%d): rejected=%v but the rectangle is %s", v.left, v.top, v.dataWidth, v.dataHeight, l, tp, w, h, fired, map[bool]string{true: "outside the data or has a negative origin", false: "inside the data"}[invalid])
+								bad = fmt.Sprintf("view at offset (%d,%d) of %dx%d data, Crop(%d,%d,%d,%d): rejected=%v but the rectangle is %s", v.left, v.top, v.dataWidth, v.dataHeight, l, tp, w, h, fired, map[bool]string{true: "outside the data, has a negative origin or a negative size", false: "inside the data"}[invalid])
 								break grid
 							}
 						}
@@ -231,7 +231,7 @@ grid2:
 						bad = "?" + err
 						break grid2
 					}
-					invalid := l < 0 || tp < 0 || l+w > 10 || tp+h > 8
+					invalid := l < 0 || tp < 0 || w < 0 || h < 0 || l+w > 10 || tp+h > 8
 					if fired != invalid {
 						bad = fmt.Sprintf("10x8 data, rectangle (%d,%d,%d,%d): rejected=%v, contract says %v", l, tp, w, h, fired, invalid)
 						break grid2
